@@ -22,7 +22,7 @@ package keeper
 // ---- C31: claim maturity window vs. entropy height -------------------------------------
 
 //@ func (Keeper).ClaimIsMature
-//@   props C31,C32
+//@   props C31,C32,C12
 //@   modifies nothing
 //@   ensures result == (ctxHeight(ctx) > pcWindow(ctx) * pcBPS(ctx) + sessionBlockHeight)
 
@@ -30,7 +30,7 @@ package keeper
 //@ pure sctx(c Iface, sbh int) Iface = prevCtx(c, sbh)
 
 //@ func (Keeper).ValidateClaim
-//@   props C31,C32
+//@   props C31,C32,C12
 //@   ensures [evidence-type] err == nil ==> claim.EvidenceType != 0
 //@   ensures [session-ended] err == nil ==> ctxHeight(ctx) > claim.SessionHeader.SessionBlockHeight + pcBPS(sctx(ctx, claim.SessionHeader.SessionBlockHeight)) - 1
 //@   ensures [not-mature] err == nil ==> ctxHeight(ctx) <= pcWindow(ctx) * pcBPS(ctx) + claim.SessionHeader.SessionBlockHeight
@@ -39,7 +39,7 @@ package keeper
 
 // The leaf index can only be computed once the entropy block header exists, and lies in range.
 //@ func (Keeper).getPseudorandomIndex
-//@   props C31
+//@   props C31,C12
 //@   ensures [entropy-known] result1 == nil ==> header.SessionBlockHeight + pcWindow(sessionCtx) * pcBPS(sessionCtx) <= ctxHeight(ctx)
 //@   ensures [in-range] result1 == nil && totalRelays > 0 ==> 0 <= result0 && result0 < totalRelays
 
